@@ -116,9 +116,18 @@ ORDER_CASES = {
     "S N T0:q:t T1:o:s R0:4": "S 1R4 2R5",
     "S N T0:r:t T1:o:s R0:4": "S 1R4 2J77",
     "S N T0:p:s T1:o:s J0:6": "S 1J6",                 # swallowed: nothing reaches the derived promise
+    # a continuation returning nothing: its derived Promise<void> is fulfilled when it has run (fixed 478a4ae)
+    "S N T0:o:t T1:o:s R0:1": "S 0R1 1R",
+    "S M T0:o:t T1:v:t T2:o:s Q0": "S 0R 1R 2R1",
+    "S N R0:4 T0:o:s T1:o:s T2:o:s": "S 0R4 1R 2R",
+    "S N T0:o:t T1:o:s J0:3": "S 0J3 1J3",
     "S N T0:v:s T1:o:s J0:6": "S 0J6",
     "S N T0:v:t T1:o:s J0:6": "S 0J6 1J6",
     "S M Q0 T0:p:t X0 T1:o:s IJ1:4": "S 1R 2J4",       # the source promise is gone when the returned promise settles
+    # ... and so are all handles of the chain (a.then(f).then(g) with temporaries): g runs when f's promise settles
+    "S N T0:p:t T1:o:s R0:1 X0 X1 X3 IR1:8": "S 1R1 2R8",
+    "S N T0:p:t T1:o:s R0:1 X0 X1 X3 IJ1:5": "S 1R1 2J5",
+    "S M T0:p:t T1:v:t T3:o:s Q0 X0 X1 X3 X4 IR1:8": "S 1R 2R8 3R9",
 }
 
 
@@ -171,6 +180,12 @@ class C11(Spec):
                                 if inner and s0 == res:
                                     cases.append("S %s T0:%s:%s %s X0 %s %s" % (root, mode, h1, s0, down, inner))
                                     cases.append("S %s T0:%s:%s %s %s X0 %s" % (root, mode, h1, down, s0, inner))
+                                    # ... and the handle to the derived (chained) promise too, as a chain of temporaries
+                                    # a.then(..).then(..) does: what the continuations do may not depend on who still
+                                    # holds which promise object
+                                    cases.append("S %s T0:%s:%s %s %s X0 X1 %s" % (root, mode, h1, down, s0, inner))
+                                    cases.append("S %s T0:%s:%s %s X1 %s X0 %s" % (root, mode, h1, down, s0, inner))
+                                    cases.append("S %s T0:%s:%s %s %s X0 X1 X3 %s" % (root, mode, h1, down, s0, inner))
         for c in "AK":
             for order in (["R0:1", "R1:2", "R2:3"], ["R2:3", "R0:1", "R1:2"], ["J1:4", "R0:1", "J2:5"], ["R0:1", "J1:4", "J2:5"],
                           ["J0:7", "J1:8", "J2:9"], ["R1:2", "J0:7", "R2:3"]):
